@@ -1,6 +1,7 @@
 #!/usr/bin/env python3
-"""Regenerates the two generated blocks of DESIGN.md: the findings table of section 11 (from known_findings.json)
-and the seeded-change result table of section 12 (from seeded/*/meta.json + seeded/*/summary.txt)."""
+"""Regenerates the three generated blocks of DESIGN.md: the findings table of section 11 (from known_findings.json)
+the seeded-change result table of section 12 (from seeded/*/meta.json + seeded/*/summary.txt)
+and the table of property-preserving changes of section 14 (from benign/*/meta.json + benign/*/summary.txt)."""
 import json, os, re, glob
 V = os.path.dirname(os.path.dirname(os.path.abspath(__file__)))
 doc = open(os.path.join(V, "DESIGN.md")).read()
@@ -25,11 +26,21 @@ for d in sorted(glob.glob(os.path.join(V, "seeded", "*"))):
         res = "**MISSED**"
     rows.append("| %s | %s | %s | %s |" % (m["name"], m["property"], summ.replace("|", "\\|"), res))
 t12 = "\n".join(rows)
+rows = ["| change | property | what was changed (the property still holds) | quick check says |", "|--------|----------|------------------|------------------|"]
+for d in sorted(glob.glob(os.path.join(V, "benign", "*"))):
+    m = json.load(open(os.path.join(d, "meta.json")))
+    summ = open(os.path.join(d, "summary.txt")).read().strip().replace("\n", " ") if os.path.exists(os.path.join(d, "summary.txt")) else ""
+    cr = m.get("check_result", {})
+    res = "quiet" if m.get("quiet") else "**ALARM**: " + ", ".join("`%s`" % c for c in sorted(set(cr.get("classes", []))))
+    if m.get("history"): res += " (" + m["history"] + ")"
+    rows.append("| %s | %s | %s | %s |" % (m["name"], m["property"], summ.replace("|", "\\|"), res))
+t14 = "\n".join(rows)
 def put(doc, tag, body):
     a, b = "<!-- BEGIN %s -->" % tag, "<!-- END %s -->" % tag
     assert a in doc and b in doc, tag
     return doc[:doc.index(a) + len(a)] + "\n" + body + "\n" + doc[doc.index(b):]
 doc = put(doc, "FINDINGS", t11)
 doc = put(doc, "SEEDED", t12)
+doc = put(doc, "BENIGN", t14)
 open(os.path.join(V, "DESIGN.md"), "w").write(doc)
-print("findings:", len(kf), "fix commits:", len({f["commit"] for f in kf}), "seeded:", len(glob.glob(os.path.join(V, "seeded", "*"))))
+print("findings:", len(kf), "fix commits:", len({f["commit"] for f in kf}), "seeded:", len(glob.glob(os.path.join(V, "seeded", "*"))), "benign:", len(glob.glob(os.path.join(V, "benign", "*"))))
